@@ -174,6 +174,39 @@ def run_shard(spec, rec):
             if nf(s) != nf(psym + "m"):
                 rec.violation("symbol", {"unit": pname + "meter", "expected": psym + "m",
                                          "get_symbol": s, "registry": kind}, unit=pname)
+    # every SI prefix on every exactly defined row (long names), then the standard symbols once more:
+    # resolving prefixed units must not change what a standard symbol denotes (kt, Pa, min, hbar ...)
+    for name, expr, si, sym, rowkind, src in T.ROWS:
+        if rowkind != "exact" or not name.isidentifier():
+            continue
+        exp = expected(expr)
+        for pname, psym, power in T.PREFIXES:
+            spelled = pname + name
+            if spelled in exact_spellings:
+                continue
+            rec.count("prefixed_rows_checked")
+            try:
+                got = Q(one(), spelled).to(si).magnitude
+                w = compare(spelled, got, exp * F(10) ** power, "exact", "prefix")
+            except Exception as e:  # noqa: BLE001
+                if type(e).__name__ in ("OffsetUnitCalculusError", "UndefinedUnitError"):
+                    rec.count("prefixed_rows_not_prefixable")      # offset units, non-prefixable names
+                    break
+                w = f"raised {type(e).__name__}: {e}"
+            if w:
+                rec.violation("prefix", {"spelling": spelled, "what": w, "registry": kind}, unit=name)
+                break
+    for name, expr, si, sym, rowkind, src in T.ROWS:
+        if sym is None:
+            continue
+        rec.count("symbols_resolved_after_prefixed_lookups")
+        try:
+            a, b = ureg.get_name(nf(sym)) if nf(sym) == sym else ureg.get_name(sym), ureg.get_name(name)
+        except Exception as e:  # noqa: BLE001
+            a, b = f"raised {type(e).__name__}", name
+        if a != b:
+            rec.violation("symbol-denotes-another-unit", {"symbol": sym, "resolves_to": a, "unit": b,
+                                                           "registry": kind}, unit=name)
     # base units -----------------------------------------------------------------------
     for name, sym, dim in T.BASE:
         rec.case((kind, name, "base"))
